@@ -214,9 +214,14 @@ def chain_teardown(chk, F, rule, cfg):
             v = strip(d.value)
             if v[0] == 'discr' and is_call(strip(v[1]), r'OnceCell(<T>)?::take$'):
                 last = symex.decision_variant(F, d)
+            elif v[0] == 'discr' and is_call(strip(v[1]), r'Option<T> as core::ops::Try>::branch$') and strip(v[1])[2] and is_call(strip(strip(v[1])[2][0]), r'OnceCell(<T>)?::take$'):
+                # `cell.take()?`: Continue = a node was taken out, Break = the cell was empty
+                last = {'Continue': 'Some', 'Break': 'None'}.get(symex.decision_variant(F, d), None)
         chk.ob(rule, 'the chain destructor stops only at an empty cell', last == 'None', config=cfg, fn=fn, site='chain-drop:complete', what='chain destructor exit after %s' % last, found=last)
         # every node taken has its value dropped
         takes_some = [strip(strip(d.value)[1]) for d in p.decisions if strip(d.value)[0] == 'discr' and is_call(strip(strip(d.value)[1]), r'OnceCell(<T>)?::take$') and symex.decision_variant(F, d) == 'Some']
+        takes_some += [strip(strip(strip(d.value)[1])[2][0]) for d in p.decisions if strip(d.value)[0] == 'discr' and is_call(strip(strip(d.value)[1]), r'Option<T> as core::ops::Try>::branch$') and strip(strip(d.value)[1])[2] and
+                       is_call(strip(strip(strip(d.value)[1])[2][0]), r'OnceCell(<T>)?::take$') and symex.decision_variant(F, d) == 'Continue']
         dropped = 0
         for t in takes_some:
             if any((e.kind == 'drop' and mentions(e.data[0], lambda x: x == t)) or (e.kind == 'call' and re.search(r'mem::drop$', e.data[1]) and mentions(e.data[2][0], lambda x: x == t)) for e in p.effects):
